@@ -8,8 +8,8 @@ use crate::plan::*;
 
 /// C17 case index -> (history, boundary slot, paired operation)
 pub fn pair_case(i: u64) -> (u64, u64, u64) {
-    let op = i % 9;
-    let j = i / 9;
+    let op = i % 13;
+    let j = i / 13;
     let hist = j % 24 + 24 * (j / (24 * 40));
     let slot = (j / 24) % 40;
     (hist, slot, op)
